@@ -5,6 +5,9 @@ LIBS = {
     "unicode": "unicode.IsSpace / unicode.IsControl are modelled as explicit code-point predicates (compared with Go on all code points in the thorough tier)",
 }
 
+# four colours that differ from the defaults and from each other (components 0, 1, 10, 255, mixed case)
+C14_COLOURS = "[style.colors]\nprimary = \"#000000\"\nerror = \"#FFfe01\"\nhighlight = \"#0a0B0c\"\ncode_background = \"#ffffff\"\n"
+
 PROPS = {
     "C01": {
         "timeouts_not_mine": True,
@@ -36,9 +39,17 @@ PROPS = {
     "C14": {
         "timeouts_not_mine": True,
         "lean_modules": ["Props.Cells", "Props.Clean", "Props.C01p", "Props.Gen14"],
-        "groups": [{"name": "C14", "quick": 4000, "thorough": 100000}, {"name": "render", "quick": 1500, "thorough": 40000},
-                   {"name": "presentP", "quick": 600, "thorough": 20000, "workers": 12}],
-        "rule": "style expressions (nesting and concatenation of the eight style functions over texts with newlines, blanks, tabs, wide characters) optionally followed by 0..3 layout steps (wrap, dumbwrap, pad, indent, snip, quote, header, bullet, link, linkblock); a terminal state machine is run on the implementation's output: per-character attributes must equal the enclosing style functions, and no attribute may be active at a line break or at the end; plus the render group; "
+        "groups": [{"name": "C14", "quick": 3000, "thorough": 80000}, {"name": "render", "quick": 1200, "thorough": 30000},
+                   # the same under configured colours (what style.Color/Red/Code/Highlight read is the configuration, not a constant)
+                   {"name": "C14", "quick": 1500, "thorough": 40000, "workers": 6, "config": C14_COLOURS},
+                   {"name": "render", "quick": 600, "thorough": 15000, "workers": 6, "config": C14_COLOURS},
+                   {"name": "presentP", "quick": 600, "thorough": 20000, "workers": 12},
+                   # whole frames of the real interface (status line, cut and centred item texts): frames_neutral
+                   {"name": "C07", "quick": 96, "thorough": 2500, "workers": 16}],
+        "rule": "style expressions (nesting and concatenation of the eight style functions over texts with newlines at the start, at the end and doubled, blanks of every unicode.IsSpace kind, wide, combining and invisible characters, sentences long enough to wrap; a third of them at least three levels deep around already styled concatenations that span line breaks) "
+                "optionally followed by 0..3 (one in ten: 4..7) layout steps (wrap, dumbwrap, pad, indent with seven prefixes incl. a styled one, snip to heights 0..10, quote, header of levels 0..7, bullet, code block, link and linkblock with numbers of 1..10 digits, a further style function around the laid-out text) at widths 1..24 and 0, 40..250; "
+                "run under the default colours and under a configuration with four other colours (the colours in force travel with the op); a terminal state machine is run on the implementation's output: per-character attributes must equal the enclosing style functions, and no attribute may be active at a line break or at the end; "
+                "plus the render group (incl. two or three Markup values rendered alternately and long width histories), item texts, and the frames of the real interface driven by key sequences; "
                 "non-trivial = some character is styled; distinct by op content",
         "trusted": ["the terminal model: ESC[0m / ESC[m clear, any other SGR parameter string is added", LIBS["regexp"]],
         "assumptions": ["input text is ESC-free (it went through Scrub, C01)"],
@@ -54,9 +65,12 @@ PROPS = {
         "shrink_budget": 3,
     },
     "C06": {
-        "groups": [{"name": "C06", "quick": 1500, "thorough": 40000, "workers": 12}, {"name": "renderdeep", "quick": 240, "thorough": 6000, "workers": 12},
+        "groups": [{"name": "C06", "quick": 1500, "thorough": 40000, "workers": 12}, {"name": "renderdeep", "quick": 192, "thorough": 8000, "workers": 12},
                    {"name": "render", "quick": 800, "thorough": 20000}, {"name": "presentP", "quick": 800, "thorough": 20000, "workers": 12}],
         "rule": "JSON objects with the ActivityStreams keys filled with right- and wrong-typed values (types from all kinds incl. Tombstone/bogus, markup bodies in the four media types incl. 10..70 nested blockquotes, huge/negative/fractional numbers, malformed URLs and timestamps, embedded parents up to depth 3, collections with bogus entries, dead references to a closed port), built as post/actor/activity/any and then every Tangible method called at widths -50..300 and link numbers 0, +-1, 2^31, +-2^63; deep nesting of every block/inline tag to depth 5..65 at widths -1..80; "
+                "one renderdeep case in three is wide rather than deep (predicate-only): single lines of 10^4..10^5 characters in all four markups (styled stretches up to 14 000 characters), 60..3000 siblings (paragraphs, line breaks, list items, bold words, links, images, rules, headings, table cells, gemtext and plain-text lines), attribute values of 5 000..50 000 characters (href, src, alt, title, unknown attributes, 300 attributes on one element), "
+                "ordinary documents at widths 300..4096, 65535, 2^31-1, 2^31, 2^32+7, 2^62, 2^63-1, -80, -65535, -2^31, -2^63+70000 (documents with <pre> or <hr>, whose output is as wide as the width: 300..2000), inline nesting of 50..500 levels around a few characters, <pre> / fenced blocks of 10..100 short lines with lines x width <= 8000; "
+                "sizes stay inside what the real code renders in about a second (see the recorded finding and the switch genReportedDefects in gentext.go for what lies beyond); "
                 "a panic or a timeout (10 s) of the real code is an output; non-trivial = at least three strings were produced; distinct by op content",
         "trusted": ["x/net/html, goldmark (time and memory of the external parsers are observed, not proved)", "the Go runtime (wall-clock, memory)"],
         "assumptions": ["pubfuzz ops are predicate-only: the item-level String/Preview are not recomputed by the model; their building blocks (renderers, style, ansi, selection) are modelled and proved"],
@@ -166,6 +180,9 @@ PROPS = {
         "groups": [{"name": "C13", "quick": 6000, "thorough": 200000},
                    {"name": "C13x", "quick": 0, "thorough": 6, "workers": 1}, {"name": "unicodeall", "quick": 0, "thorough": 1, "workers": 1}],
         "rule": "styled text from a cell grammar (words, runs of all IsSpace kinds, newlines, nested SGR attributes; 1 in 5 a hostile ESC/[/m string) x widths -3..250; "
+                "one case in six from the edges: one text wrapped at every width from 0 past its longest line (or at the widths around its line lengths and 80/120/200), paragraphs of 20..200 words with over-long words at 40..500 columns and through the wrap-then-snip pipeline, "
+                "a wide / combining / invisible / blank-looking (IsSpace and not) character at position w-1, w or w+1, snip with heights n-2..n+1, 0, -1, 1000, 65536 and widths equal to a line's length, one off, 0, -1, 65535, 2^31 over texts with blank lines at the end and in between and five ellipses, "
+                "pad at the exact line lengths, one off, 0, -1, -2^31, -2^63+4096, 300..2000 over empty / newline-only / newline-terminated texts, indent of such texts with twelve prefixes (styled, blank, long, 'm', '['), setlength at the exact length, one off, -1, 200..65535, apply with odd style strings over cells styled up to nine levels deep; "
                 "non-trivial = some input line is longer than the width (wrap/dumbwrap/pad actually act) / more lines than the height (snip) / a styled cell is present (expand); distinct by op content",
         "trusted": [LIBS["regexp"], LIBS["unicode"]],
         "assumptions": ["model strings are sequences of Unicode scalar values (valid UTF-8 in Go)",
@@ -225,7 +242,9 @@ PROPS = {
         "timeouts_not_mine": True,
         "lean_modules": ["Props.C13s"],
         "groups": [{"name": "render", "quick": 2500, "thorough": 60000}],
-        "rule": "documents from grammars of HTML (inline styles, links, media, blockquotes, lists, headings, pre, hr, unknown tags, character-reference injections), Markdown, gemtext and plain text with URLs x sequences of 1..4 widths (with repeats and returns to earlier widths; -3..250); the same Markup value is rendered at each width in order; "
+        "rule": "documents from grammars of HTML (inline styles, links, media, blockquotes, lists, headings, pre, hr, unknown tags, character-reference injections), Markdown, gemtext and plain text with URLs x sequences of 1..4 (one in eight: 5..14) widths (with repeats and returns to earlier widths; -3..250); the same Markup value is rendered at each width in order; "
+                "one case in 22 is a long history of 20..400 widths on one Markup (1 up to 20..220 and back in steps of 1..4, every width between two sizes there and back twice, jumps among a few sizes incl. 80/79/81/0/-1, a random walk, back to 80 after every other size), "
+                "one in 15 keeps two or three Markup values alive (different documents, or the same text under the same or another media type) and renders them alternately for 4..23 steps (op renderpair); every output is also compared with the same document rendered at that width on a value that was never rendered before; "
                 "non-trivial = the document has links or is rendered at more than one width; distinct by op content",
         "trusted": ["x/net/html and goldmark (the model renders the forest the real parser produced, shipped with the op; theorems quantify over all forests)", LIBS["regexp"], LIBS["unicode"]],
         "assumptions": ["width >= 1 for the width clause"],
